@@ -1,13 +1,7 @@
 (* Model of ipfix/marshal.go and netflow/v9/marshal.go (JSONMarshal, encodeDataSet, writeValue). *)
-From VF Require Import Base.Prelude Base.IPText Base.Utf8 Model.JsonPieces Model.Flow.
+From VF Require Import Base.Prelude Base.IPText Base.Utf8 Base.Json Model.JsonPieces Model.Flow.
 
-(* writeJSONString: range over the runes of s; quote and backslash get a backslash, runes below 0x20
-   become u00XX escapes, everything else is written as UTF-8 *)
-Definition esc_rune (r : Z) : bytes :=
-  if (r =? 34) || (r =? 92) then [92; r]
-  else if r <? 32 then s2l "\u00" ++ [hex_digit (r / 16); hex_digit (r mod 16)]
-  else utf8_enc r.
-Definition json_string (s : bytes) : bytes := 34 :: flat_map esc_rune (go_runes s) ++ [34].
+(* writeString: Base.Json.json_string (range over the runes; quote, backslash and control characters escaped) *)
 
 (* strconv.FormatFloat(f, 'E', -1, bits) is not modelled: the model emits a placeholder naming the
    IEEE bit pattern, which the checker replaces by Go's own formatting of those bits.  Non-finite
